@@ -446,8 +446,23 @@ func (r *run) c16send(budget int) {
 
 // ---- Close while frames are waiting to be received and nobody receives ----
 
+// quiesce waits until the number of goroutines has not changed for 400 ms (helpers of earlier
+// phases are gone) and returns it
+func quiesce() int {
+	n, stable := runtime.NumGoroutine(), 0
+	for i := 0; i < 400 && stable < 8; i++ {
+		time.Sleep(50 * time.Millisecond)
+		if m := runtime.NumGoroutine(); m == n {
+			stable++
+		} else {
+			n, stable = m, 0
+		}
+	}
+	return n
+}
+
 func (r *run) c16closePending() {
-	base := runtime.NumGoroutine()
+	base := quiesce()
 	for i := 0; i < 12; i++ {
 		tcp := i%2 == 1
 		what := fmt.Sprintf("close-with-unread-frames tcp=%v", tcp)
